@@ -72,20 +72,19 @@ ConnectedIn(s, S) == S = {} \/ (LET r == CHOOSE x \in S : TRUE IN GReach(s, S, {
 
 (* ---------- the transition (bounded model; partial: the tie-break winner is any contender) ---------- *)
 \* a joint action is a sequence of NumAgents nodes; agent k proposes a[k + 1]
-Proposes(s, a, k) == LegalAg(s, k, a[k + 1])
-Contenders(s, a, v) == { k \in Agents : Proposes(s, a, k) /\ a[k + 1] = v }
-\* win is a function node -> the contender that gets it (for contested and uncontested nodes alike)
-Winners(s, a) ==
-  LET contested == { v \in Nodes : Contenders(s, a, v) # {} } IN
-  { w \in [contested -> Agents] : \A v \in contested : w[v] \in Contenders(s, a, v) }
-Moves(s, a, w, k) == Proposes(s, a, k) /\ w[a[k + 1]] = k
-MoveState(s, a, w) ==
-  [s EXCEPT !.positions = [k1 \in 1..NumAgents |-> IF Moves(s, a, w, k1 - 1) THEN a[k1] ELSE s.positions[k1]],
+Proposers(s, a) == { k \in Agents : LegalAg(s, k, a[k + 1]) }
+\* the agents that move: for every node proposed by somebody exactly one of its proposers (any of them)
+MoverSets(s, a) ==
+  LET prop == Proposers(s, a)
+      contested == { a[k + 1] : k \in prop }
+  IN { { w[v] : v \in contested } : w \in { f \in [contested -> prop] : \A v \in contested : a[f[v] + 1] = v } }
+MoveState(s, a, movers) ==
+  [s EXCEPT !.positions = [k1 \in 1..NumAgents |-> IF (k1 - 1) \in movers THEN a[k1] ELSE s.positions[k1]],
             !.connected_nodes_index = [k1 \in 1..NumAgents |->
-                 IF Moves(s, a, w, k1 - 1) THEN [s.connected_nodes_index[k1] EXCEPT ![a[k1] + 1] = a[k1]]
+                 IF (k1 - 1) \in movers THEN [s.connected_nodes_index[k1] EXCEPT ![a[k1] + 1] = a[k1]]
                  ELSE s.connected_nodes_index[k1]],
             !.step_count = s.step_count + 1]
-Succs(s, a) == { MoveState(s, a, w) : w \in Winners(s, a) }
+Succs(s, a) == { MoveState(s, a, movers) : movers \in MoverSets(s, a) }
 IsLastT(t, tl) == AllFinished(t) \/ t.step_count >= tl
 
 (* reward of one agent in a step s --a--> t (units of 1.0), as documented: +10 for a new connection of one of
